@@ -325,7 +325,11 @@ func (R *Repository) updateCRL(identifier string) error {
 	if entry != nil {
 		R.logger.Debug("updating crl from " + entry.CRLLoader.GetDescription())
 		if R.isEntryLoaded(entry) == false {
-			return R.loadInBackground(entry)
+			if R.crlConfig.CDPConfig.CRLFetchModeParsed == config.CRLFetchModeBackground {
+				return R.loadInBackground(entry)
+			}
+			//in fetch_actively mode handshakes load the entry themselves under the entry lock, so do the same here
+			return R.loadActively(entry, nil, entry.Locations)
 		} else {
 			return R.updateCrlEntry(entry, nil)
 		}
